@@ -24,6 +24,9 @@ into the generated module.
 
 Round 5: (W) a lossy errors= handler on the cache file makes the file differ from the hashed
 text.
+
+Round 6: imports are judged per generated half; pathlib / str wrappers around a path are looked
+through; the atomic-publish clause (A) is included.
 """
 import ast
 import builtins
